@@ -329,7 +329,7 @@ impl WorldB {
         } else {
             [0u8; 32]
         };
-        let protocol = if variant == 2 { self.protocol_id ^ 1 } else { self.protocol_id };
+        let protocol = if variant == 2 || variant == 5 { self.protocol_id ^ 1 } else { self.protocol_id };
         let mut addrs: Vec<SocketAddr> = Vec::new();
         for k in 0..dead_leading {
             addrs.push(addr_v4(10, 9, 9, 1 + k as u8, 5990 + k as u16));
@@ -358,7 +358,11 @@ impl WorldB {
         }
         addrs.truncate(32);
         let now = Duration::from_millis(self.sv_ms);
-        let token = ConnectToken::generate(now, protocol, expire_secs, id, timeout, addrs.clone(), Some(&user_data), &key).expect("token generation");
+        let mut token = ConnectToken::generate(now, protocol, expire_secs, id, timeout, addrs.clone(), Some(&user_data), &key).expect("token generation");
+        if variant == 5 {
+            // the holder of a token sealed for another protocol id controls the clear-text copy of that field
+            token.protocol_id = self.protocol_id;
+        }
         // C16 monitor on every token the run produces: public write/read and private seal/open give back what went in
         self.token_roundtrips += 1;
         let mut bytes = Vec::new();
@@ -390,7 +394,7 @@ impl WorldB {
             expire_ts: token.expire_timestamp,
             token,
             key_ok: variant != 1,
-            protocol_ok: variant != 2,
+            protocol_ok: variant != 2 && variant != 5,
             lists_server: variant != 3 || !self.secure,
             timeout,
             dead_leading,
